@@ -7,6 +7,7 @@ driver: `c08 <mode> <maxBytes> <tags> <pre> <chunks> <info>`        (tags / requ
   mode   = `s`: the chunks are one connection's byte stream (frames are split off by the model)
            `p`: every chunk is handed to the frame parser on its own and processed independently
            `u`: the chunks are datagrams for the UDP loop (same rule: `serveDatagrams`)
+           a number behind the letter (`s64`) = the configured size limit (`serveFrameSized`)
   chunks = hex strings joined by ','
   info   = per frame (in the order processed), joined by ';':  `<k|e><cp>`  with
            k/e  = what the implementation did after a frame that is not a well-formed tag request: session goes on / ends
@@ -67,9 +68,15 @@ def hexOpt : Option Bytes → String
   | none => "X"
 
 /-- one frame: (new device, output token, session continues) -/
-def stepFrame (d : Dev) (h : Header) (pl : Bytes) (info : Option Info) : Dev × String × Bool :=
+def stepFrame (limit : Option Nat) (d : Dev) (h : Header) (pl : Bytes) (info : Option Info) : Dev × String × Bool :=
   let cp := info.bind (·.cp)
   let fate := (info.map (·.cont)).getD false
+  if limit.any (· < pl.length) then
+    -- longer than the configured size limit (`serveFrameSized`): refused with status 0x65, never executed
+    match (serveFrameSized limit d h pl).2 with
+    | .reply f _ => (d, "D" ++ hexOfBytes f ++ ":e", false)
+    | .other => (d, "O", fate)
+  else
   match decodeFrame d h pl with
   | some dec =>
     let same := match cp with
@@ -87,24 +94,24 @@ def stepFrame (d : Dev) (h : Header) (pl : Bytes) (info : Option Info) : Dev × 
       (d', "Q" ++ (if eff then "~" else hexOpt cip), fate)
     | none => (d, "O", fate)
 
-def runStream (infos : List Info) : Nat → Nat → Dev → Bytes → List String
+def runStream (limit : Option Nat) (infos : List Info) : Nat → Nat → Dev → Bytes → List String
   | 0, _, _, _ => []
   | fuel + 1, k, d, bs =>
     match splitFrame bs with
     | none => []
     | some (h, pl, rest) =>
-      let (d1, tok, cont) := stepFrame d h pl infos[k]?
+      let (d1, tok, cont) := stepFrame limit d h pl infos[k]?
       let out := tok ++ "@" ++ Cpppo.Driver.Logix.dump d1
-      if cont then out :: runStream infos fuel (k + 1) d1 rest else [out]
+      if cont then out :: runStream limit infos fuel (k + 1) d1 rest else [out]
 
-def runChunks (infos : List Info) : Nat → Dev → List Bytes → List String
+def runChunks (limit : Option Nat) (infos : List Info) : Nat → Dev → List Bytes → List String
   | _, _, [] => []
   | k, d, c :: rest =>
     match splitFrame c with
-    | none => ("I@" ++ Cpppo.Driver.Logix.dump d) :: runChunks infos (k + 1) d rest
+    | none => ("I@" ++ Cpppo.Driver.Logix.dump d) :: runChunks limit infos (k + 1) d rest
     | some (h, pl, _) =>
-      let (d1, tok, _) := stepFrame d h pl infos[k]?
-      (tok ++ "@" ++ Cpppo.Driver.Logix.dump d1) :: runChunks infos (k + 1) d1 rest
+      let (d1, tok, _) := stepFrame limit d h pl infos[k]?
+      (tok ++ "@" ++ Cpppo.Driver.Logix.dump d1) :: runChunks limit infos (k + 1) d1 rest
 
 /-- `eng <kinds> <terminal> <edges> <input hex>`: a `dfa` of plain states over the real engine's rules.
 kinds: per state `p` (plain: consumes nothing) or `c` (consumes one symbol when it runs: `state_drop`);
@@ -169,11 +176,17 @@ def handle : List String → Option String
     let d := pre.foldl (fun d r => (exec d r).1) d
     let cs ← (splitNonEmpty chunks ',').mapM bytesOfHex
     let infos ← (splitNonEmpty info ';').mapM parseInfo
+    -- the mode letter may be followed by the configured size limit (`s64`)
+    let limit ← (match mode.toList with
+      | _ :: [] => some none
+      | _ :: ds => (String.ofList ds).toNat?.map some
+      | [] => none)
+    let mode := String.ofList (mode.toList.take 1)
     let outs ←
       if mode == "s" then
         let bs := cs.flatten
-        some (runStream infos bs.length 0 d bs)
-      else if mode == "p" || mode == "u" then some (runChunks infos 0 d cs)   -- u: datagrams (`serveDatagrams`)
+        some (runStream limit infos bs.length 0 d bs)
+      else if mode == "p" || mode == "u" then some (runChunks limit infos 0 d cs)   -- u: datagrams (`serveDatagrams`)
       else none
     pure ((if outs.isEmpty then "-" else ";".intercalate outs) ++ s!"#{outs.length}")
   | ["c08.scan", req] => do
